@@ -272,6 +272,8 @@ def robust_check(o, a=1024, b=65536, extra=0):
         return "panic: %s" % r.get("e")
     if o.get("fmt_panic"):
         return "Debug formatting panicked: %s" % o["fmt_panic"]
+    if o.get("again_differs"):
+        return "the same bytes at another address, after an unrelated call, gave a different result: %s" % json.dumps(o.get("again"))[:160]
     if o["alloc"] > a * o["len"] + b + extra:
         return "heap %d bytes for a %d-byte input" % (o["alloc"], o["len"])
     if not o.get("rem_ok", True):
